@@ -113,7 +113,7 @@ CHECKS = {
               "reference, so results cannot depend on cache contents or generation history. Exploration."),
         design='4/C10'),
     'C05': dict(
-        technique="Hypothesis property-based testing (structured password grammar + st.text filtered by the real input filter) and a Hypothesis RuleBasedStateMachine over detector training histories; validity-predicate oracle on the recorded segmentation and exact counter-delta tallies; plus the whole run_trainer on generated lists (expanded / --prefixcount spellings, -m word list) against a reference multi-word model",
+        technique="Hypothesis property-based testing (structured password grammar + st.text filtered by the real input filter) and a Hypothesis RuleBasedStateMachine over detector training histories; validity-predicate oracle on the recorded segmentation and exact counter-delta tallies; plus the whole run_trainer on generated lists (expanded / --prefixcount spellings, -m word list) against a reference multi-word model; scale part: a detector history of 70 000 / 250 000 distinct words",
         text=("Passwords built from interleaving/overlapping trigger fragments (words, multi-words, digits, years, keyboard walks over "
               "both layouts, context strings and near-misses, e-mail/website look-alikes, Unicode incl. U+0130) are parsed by the real "
               "parser behind a real multi-word detector whose training history is generated and mirrored in a dict model; the section "
